@@ -8,6 +8,7 @@ from __future__ import annotations
 
 import copy
 import faulthandler
+import hashlib
 import json
 import multiprocessing as mp
 import os
@@ -170,7 +171,8 @@ def minimise_violation(engine, spec, target_cls, known_keys, max_execs, max_wall
 def write_replay(property_id, engine, spec, violation, digest, base_seed):
     d = os.path.join(findings.replay_dir(), property_id)
     os.makedirs(d, exist_ok=True)
-    path = os.path.join(d, f"{spec.get('seed', 0)}.json")
+    tag = hashlib.sha256(violation["cls"].encode()).hexdigest()[:6]
+    path = os.path.join(d, f"{spec.get('seed', 0)}-{tag}.json")
     doc = {
         "property": property_id,
         "engine": engine.NAME,
